@@ -382,7 +382,7 @@ def conservation_rule(rep, T, mod, cname, construct, where):
         acc = accs[0]
         pa = [n for n, v in env.items() if isinstance(n, str) and n in L0.pre and repr(v) == item0 and n not in ("offset",)]
         pl = [n for n, v in env.items() if isinstance(n, str) and n in L0.pre and repr(v) == item1]
-        path = " and ".join(show(x)[:60] for x in g if not (isinstance(x, Op) and x.op == "in-loop")) or "main path"
+        path = " and ".join(_notag(show(x)) for x in g if not (isinstance(x, Op) and x.op == "in-loop")) or "main path"
         if not pa or not pl:
             # a path that leaves the trackers alone must emit nothing (the entry is skipped as a whole)
             for cond, term in _cases(env[acc]):
@@ -411,7 +411,7 @@ def conservation_rule(rep, T, mod, cname, construct, where):
                     sa, sl = _sums(_pieces(term, b))
                     nchecks += 1
                     e_end = {n: _resolve(v, cond) for n, v in e_end_raw.items() if isinstance(n, str)}
-                    cdesc = (" when " + " and ".join(show(c)[:70] if not isinstance(c, tuple) else "not(%s)" % show(c[1])[:70] for c in cond)) if cond else ""
+                    cdesc = (" when " + " and ".join(_notag(show(c)) if not isinstance(c, tuple) else "not(%s)" % _notag(show(c[1])) for c in cond)) if cond else ""
                     if si == 0:
                         # residuals: the variables that, with what was emitted so far, make up the entry's deltas
                         cand_a = [n for n, v in e_end.items() if isinstance(n, str) and not n.startswith("__") and n != acc and _zero(add(add(sa, v), Ta, -1))]
@@ -460,7 +460,7 @@ def conservation_rule(rep, T, mod, cname, construct, where):
                             hl = Sym("%s:%s" % (ls.tag, rl)) if _modified(ls, rl) else ls.pre.get(rl)
                             da = add(add(sa, l2.env.get(ra)), ha, -1)
                             dl = add(add(sl, l2.env.get(rl)), hl, -1)
-                            lname = "loop(%s)" % show(ls.cond)[:40]
+                            lname = "loop(%s)" % _notag(show(ls.cond))[:60]
                             if not _zero(da):
                                 problems.append(("address", lname, "one iteration emits address bytes %s while %s goes %s -> %s" % (show(sa), ra, show(ha), show(l2.env.get(ra)))))
                             if not _zero(dl):
@@ -471,8 +471,7 @@ def conservation_rule(rep, T, mod, cname, construct, where):
             raise AnalysisError("%s: emission idiom outside the supported subset: %s" % (construct, ex))
     seen = set()
     for kind, pth, what in problems:
-        import re
-        key = re.sub(r"(after-)?loop\d+(\.\d+)?:", "", "conservation:%s:%s" % (kind, pth))
+        key = _notag("conservation:%s:%s" % (kind, pth))
         if key in seen:
             continue
         seen.add(key)
@@ -482,6 +481,12 @@ def conservation_rule(rep, T, mod, cname, construct, where):
     if not problems:
         rep.ob("R8", construct, "conservation", True, derived="%d segment / iteration checks" % nchecks)
     return nchecks
+
+
+def _notag(text):
+    """loop tags carry source line numbers: keep them out of obligation keys"""
+    import re
+    return re.sub(r"(after-)?loop\d+(\.\d+)?:", "", text)
 
 
 def _modified(ls, name):
